@@ -27,6 +27,8 @@ def run_cases(ck, res, n_cases, n_interval):
         if kind in ('shell2', 'basis2') and r.random() < 0.4:
             r0, d = r0 + 3.5, -(dy(r, 0, 3) + 0.125)          # r_0 > r_1 orientation
         r1 = r0 + d
+        if kind in ('shell2', 'basis2') and r0 > 0 and r.random() < 0.15:
+            r1 = 0.0                                            # reversed orientation ending exactly at the origin
         k = dy(r, 0.125, 4)
         bounded = kind in ('inf', 'inf_basis')
         nk = ('one', 'sin') if bounded else ('one', 'pow', 'sin')
